@@ -328,7 +328,8 @@ pub fn typed_tag_as(rec: &mut Rec, p: &str, tag: &Generic, kind: u32, opts: &Mbi
     // outside either tag
     let ck = format!("{p}.cast");
     let cast_ok = matches!(rec.t.lines.iter().rev().find(|(k, _)| *k == ck), Some((_, Val::Ext(..))));
-    if cast_ok {
+    // (not for structures of megabytes: the relations hash and compare every byte)
+    if cast_ok && (tag.header().size as usize) < (1 << 20) {
         if let Some(d) = crate::warm::decoy_mbi() {
             let other = catch(|| d.tags().find(|t| u32::from(t.header().typ) == kind)).flatten();
             if let Some(o) = other {
